@@ -536,3 +536,10 @@ ENTRIES += [
       (WU, "    def backward(sample: Float[ArrayLike, \" ...\"]) -> Float[Array, \" ...\"]:", "    def to_old(sample: Float[ArrayLike, \" ...\"]) -> Float[Array, \" ...\"]:"),
       (WU, "    return RescaleResult(new_box, forward, backward)", "    return RescaleResult(new_box, to_new, to_old)")),
 ]
+
+ENTRIES += [
+    M("C04-filter-scan-drops-reverse", "C04", "C04.10", (UT, "        reverse=reverse,\n        unroll=unroll,", "        reverse=False,\n        unroll=unroll,")),
+    M("C04-filter-scan-stale-carry", "C04", "C04.10", (UT, "        return new_carry_arr, y", "        return carry_arr, y")),
+    M("C02-lru-cache-observation", ["C02", "C12"], ["C02.3", "C12.1"], (PEN, "    def observation(\n        self, state: PendulumState", "    @functools.lru_cache(maxsize=None)\n    def observation(\n        self, state: PendulumState"), (PEN, "from typing import ClassVar", "import functools\nfrom typing import ClassVar"), stale_ok=True),
+    M("C11-io-callback-in-step", "C11", "C11.1", (OFP, "        timeout = truncation & ~termination", "        timeout = truncation & ~termination & jax.experimental.io_callback(lambda: True, jnp.array(True))")),
+]
